@@ -468,6 +468,8 @@ func runR126(c *Ctx) {
 	c.Check(okPart, name, "partition", c.Pos(fn.Pos()), "every digest of the request goes into the builder of its own shard", "digests are not partitioned by getBackendIndexByDigest of the digest being added (a shard would be asked about another shard's objects, or some digests would not be asked about at all)")
 	// (b) closure asks backend[index] about builder[index]
 	okAsk, okKey := false, false
+	var askSet ssa.Value
+	var askClosure *ssa.Function
 	for _, a := range fn.AnonFuncs {
 		allInstrs(a, func(ins ssa.Instruction) {
 			cl, ok := ins.(*ssa.Call)
@@ -492,6 +494,7 @@ func runR126(c *Ctx) {
 				if isElem && idxOrigin == idx {
 					_ = X
 					okAsk = true
+					askSet, askClosure = setOrigin, a
 				}
 			}
 		})
@@ -510,6 +513,31 @@ func runR126(c *Ctx) {
 		})
 	}
 	c.Check(okAsk, name, "own-builder", c.Pos(fn.Pos()), "backend i is asked about builder i", "a backend is not asked about exactly the builder filled under its own index")
+	// a shard is contacted only when its own builder is non-empty
+	if okAsk {
+		okGuard := false
+		var goPos token.Pos = fn.Pos()
+		allInstrs(fn, func(ins ssa.Instruction) {
+			cl, ok := ins.(*ssa.Call)
+			if !ok || cl.Call.StaticCallee() == nil || cl.Call.StaticCallee().Name() != "Go" || len(cl.Call.Args) != 2 {
+				return
+			}
+			mc, ok := cl.Call.Args[1].(*ssa.MakeClosure)
+			if !ok || mc.Fn != ssa.Value(askClosure) {
+				return
+			}
+			goPos = cl.Pos()
+			okGuard = dominatedByLowerBound(cl.Block(), func(x ssa.Value) bool {
+				lc, ok := x.(*ssa.Call)
+				if !ok || lc.Call.StaticCallee() == nil || lc.Call.StaticCallee().Name() != "Length" || len(lc.Call.Args) == 0 {
+					return false
+				}
+				o := captureOrigin(fn, lc.Call.Args[0])
+				return o == askSet || sameSource(o, askSet)
+			}, 1)
+		})
+		c.Check(okGuard, name, "only-involved-shards", c.Pos(goPos), "a shard is asked only if its own builder is non-empty", "the call to a shard is not guarded by the length of that shard's own builder: shards that own none of the digests are contacted as well (with an empty set), so a failure of an uninvolved shard fails the whole request")
+	}
 	c.Check(okKey, name, "shard-key-in-error", c.Pos(fn.Pos()), "errors are wrapped with the shard key", "errors of a shard are not wrapped with that shard's key")
 	// (c) union of the collected answers, (d) slots stay valid
 	okUnion := false
